@@ -392,22 +392,23 @@ func (b *baseExecutor) buildLockKey(records *types.RecordImage, meta types.Table
 		if filedSequence > 0 {
 			lockKeys.WriteString(",")
 		}
+		// the key values in the order of the key columns, whatever order the image lists its columns in
+		// (an INSERT records them as the statement names them)
 		pkSplitIndex := 0
-		for _, column := range row.Columns {
-			var hasKeyColumn bool
-			for _, key := range keys {
-				if column.ColumnName == key {
-					hasKeyColumn = true
+		for _, key := range keys {
+			for _, column := range row.Columns {
+				if strings.EqualFold(column.ColumnName, key) {
 					if pkSplitIndex > 0 {
 						lockKeys.WriteString("_")
 					}
 					lockKeys.WriteString(fmt.Sprintf("%v", column.Value))
 					pkSplitIndex++
+					break
 				}
 			}
-			if hasKeyColumn {
-				filedSequence++
-			}
+		}
+		if pkSplitIndex > 0 {
+			filedSequence++
 		}
 	}
 
